@@ -29,7 +29,7 @@ COMPONENTS = {"real": ["BoxPortfolio", "DiscretePortfolio", "PortfolioSpace.make
               "harness": ["malformed-action catalogue", "delivery model"], "stub": []}
 PROBE_FLOORS = {"malformed_nan": 11, "malformed_shape": 34, "malformed_bound_ulp": 12, "malformed_bad_index": 40,
                 "malformed_deep_in_queue_episode_ends_first": 10, "in_space_on_bound": 50, "list_action": 116, "float32_action": 125,
-                "cash_entry_ignored": 200, "discrete_nr_contracts_mode": 30, "frictionless_weights_checked": 200, "malformed_rejected_when_due": 177}
+                "cash_entry_ignored": 200, "discrete_nr_contracts_mode": 30, "frictionless_weights_checked": 200, "malformed_rejected_when_due": 177, "xy_allocation_checked": 500, "xy_delay_zero": 200, "xy_malformed_rejected": 30}
 
 PROFILE = {
     "n_min": 3, "n_max": 10, "n_long": 20, "p_long": 0.05, "c_min": 1, "c_max": 3, "p_bar": 1.0, "extras_max": 4,
@@ -41,6 +41,8 @@ PROFILE = {
 
 
 def generate(rng, i):
+    if i % 10 == 9:
+        return generate_xy(rng, i)
     env = gen_epi.gen_env(rng, PROFILE)
     sp = env["space"]
     frictionless = rng.random() < 0.4
@@ -109,6 +111,103 @@ def generate(rng, i):
             "frictionless": frictionless}
 
 
+def generate_xy(rng, i):
+    """The tabular environment (TradingEnvXY) configured with delays 0..3: the same denotation and due-step
+    rules hold there (its constructor forwards the delay and builds the continuous space itself)."""
+    from tesim import xy
+    tb = xy.gen_tables(rng, {"n_min": 40, "n_max": 80, "freqs": ["D"]})
+    ny = len(tb["ycols"])
+    for r, row in enumerate(tb["Y"]):           # every asset quoted on every date: any in-space action can be executed
+        for j, v in enumerate(row):
+            if v != v:
+                row[j] = tb["Y"][r - 1][j] if r > 0 else 100.0
+    kw = {"window": rng.choice([1, 2, 3]), "stride": None, "spread": rng.choice([0, 0.001]), "transformer": None, "clip": 5.0,
+          "steps_delay": rng.choice([0, 0, 1, 2, 3]), "margin": 0.0, "calendar": "24/7", "latency": 0}
+    acts = []
+    for k in range(12):
+        a = [round(rng.uniform(-0.3, 0.3), 4) for _ in range(ny)]
+        a[0] = round(0.01 * (k + 1), 4)            # distinct actions: an executed allocation identifies its submission
+        acts.append(a)
+    bad_at = rng.randint(0, 8) if rng.random() < 0.5 else None
+    return {"kind": "xy", "tables": tb, "kwargs": kw, "fold": None, "actions": acts, "bad_at": bad_at, "np_seed": rng.randrange(2 ** 31)}
+
+
+def execute_xy(scenario):
+    from tesim import xy
+    import warnings
+    violations, probes, violate, probe = epicheck.mk_violation_sink()
+    kw = scenario["kwargs"]
+    d = kw["steps_delay"]
+    acts = scenario["actions"]
+    bad_at = scenario.get("bad_at")
+    log = []
+    executed = 0
+    with core.sim_context():
+        try:
+            env, X0, Y0, rate0 = xy.make_env(scenario)
+        except Exception as e:
+            return {"violations": [], "digest": core.digest(["build", type(e).__name__]), "probes": {"build_refused": 1}, "faults": {},
+                    "stats": {"ops": 1}, "trace": "xy-refused", "nontrivial": False}
+        ycols = [str(c.symbol) for c in env.Y.columns]
+        np.random.seed(scenario.get("np_seed", 0) % (2 ** 32))
+        with warnings.catch_warnings():
+            warnings.simplefilter("ignore")
+            try:
+                env.reset()
+            except Exception as e:
+                return {"violations": [], "digest": core.digest(["reset", type(e).__name__]), "probes": {"reset_refused": 1}, "faults": {},
+                        "stats": {"ops": 1}, "trace": "xy-reset-refused", "nontrivial": False}
+            done = bool(getattr(env, "_done", False))
+            k = 0
+            pending_bad = None
+            while not done and k < len(acts):
+                a = np.array(acts[k], dtype=float)
+                if bad_at is not None and k == bad_at:
+                    a = a.copy()
+                    a[0] = 7.5                   # outside the space's bounds [-1, 1]
+                    pending_bad = k
+                n_before = len(env.broker.track_record)
+                hold_before = {str(getattr(c, "symbol", c)): float(q) for c, q in env.broker.holdings_quantity.items() if q != 0 and type(c).__name__ != "Cash"}
+                try:
+                    obs, reward, done, info = env.step(a)
+                    exc = None
+                except Exception as e:
+                    exc = type(e).__name__
+                tr = env.broker.track_record
+                hold = {str(getattr(c, "symbol", c)): float(q) for c, q in env.broker.holdings_quantity.items() if q != 0 and type(c).__name__ != "Cash"}
+                log.append([k, exc, len(tr)])
+                due = k - d
+                if exc is not None:
+                    if pending_bad is None or k > pending_bad + d or exc == "EndOfEpisodeError":
+                        violate("unexpected_exception", "tabular environment (delay {}): step {} raised {} although every action due so far is in the space".format(d, k, exc),
+                                op=k, exc=exc, where="step", site="xy")
+                    else:
+                        if len(tr) != n_before or hold != hold_before:
+                            violate("rejection_not_clean", "tabular environment: step {} rejected a malformed action but the account changed".format(k), op=k, bad="above")
+                        probe("xy_malformed_rejected")
+                    break
+                if pending_bad is not None and due >= pending_bad:
+                    violate("malformed_not_rejected", "tabular environment (delay {}): the out-of-bounds action submitted at step {} was due at step {} but step() returned".format(
+                        d, pending_bad, pending_bad + d), op=k, bad="above", delay=d)
+                    break
+                if len(tr) != n_before + 1:
+                    violate("one_execution_per_step", "tabular environment: step {} added {} track-record entries".format(k, len(tr) - n_before), op=k, kind="entries")
+                    break
+                got = {str(c.symbol): float(v) for c, v in tr[-1].allocation.items() if float(v) != 0}
+                want = {} if due < 0 else {ycols[j]: float(acts[due][j]) for j in range(len(ycols)) if float(acts[due][j]) != 0}
+                if got != want:
+                    violate("allocation_not_action", "tabular environment (delay {}): step {} executed allocation {} but the action due (submitted at step {}) denotes {}".format(
+                        d, k, got, due if due >= 0 else "<none>", want), op=k, space="xy", cash=False)
+                    break
+                executed += 1
+                probe("xy_allocation_checked")
+                if d == 0:
+                    probe("xy_delay_zero")
+                k += 1
+    return {"violations": violations, "digest": core.digest(log), "probes": probes, "faults": {"malformed_action": 1} if bad_at is not None else {},
+            "stats": {"ops": len(log), "steps": len(log)}, "trace": "xy|d{}|b{}|n{}".format(d, bad_at, executed), "nontrivial": executed >= 1}
+
+
 def denoted(h, raw):
     """Allocation a scripted in-space action denotes."""
     a = raw
@@ -125,6 +224,8 @@ def is_bad(raw):
 
 
 def execute(scenario):
+    if scenario.get("kind") == "xy":
+        return execute_xy(scenario)
     sim = epi.run_scenario(scenario)
     env_spec = scenario["envs"][0]
     violations, probes, violate, probe = epicheck.mk_violation_sink()
@@ -282,14 +383,25 @@ def noncash(hold):
 
 
 def describe(scenario):
+    if scenario.get("kind") == "xy":
+        return {"kind": "xy", "kwargs": scenario["kwargs"], "rows": len(scenario["tables"]["dates"]), "actions": scenario["actions"], "bad_at": scenario.get("bad_at")}
     return gen_epi.describe(scenario)
 
 
 def shrink_paths(scenario):
+    if scenario.get("kind") == "xy":
+        return [("actions",)]
     return [("script",)]
 
 
-from tesim.props.c04 import simplify  # noqa: E402,F401
+from tesim.props.c04 import simplify as _simplify_epi  # noqa: E402
+
+
+def simplify(scenario):
+    if scenario.get("kind") == "xy":
+        return
+    for c in _simplify_epi(scenario):
+        yield c
 
 
 generate = gen_epi.with_backtest_driver(generate, 0.2)
